@@ -201,3 +201,52 @@ func rejectingTests(root *ssa.Function, depth int) []rejectTest {
 	})
 	return out
 }
+
+// singleSource follows a value whose content the program text fixes to one source: a load of a struct field
+// that is stored exactly once in the whole module, or a parameter of a function that is called from exactly one
+// place (and never taken as a value). It stops at the first value that has no such single source.
+func singleSource(c *core.Ctx, v ssa.Value) ssa.Value {
+	for hop := 0; hop < 6; hop++ {
+		v = an.Strip(v)
+		switch x := v.(type) {
+		case *ssa.FieldAddr:
+			fld := an.FieldOfAddr(x)
+			if fld == nil || fld.Pkg() == nil {
+				return v
+			}
+			var vals []ssa.Value
+			for _, fn := range c.AllFuncs {
+				if fn.Pkg == nil || fn.Pkg.Pkg != fld.Pkg() {
+					if o := fn.Origin(); o == nil || o.Pkg == nil || o.Pkg.Pkg != fld.Pkg() {
+						if an.Outermost(fn).Pkg == nil || an.Outermost(fn).Pkg.Pkg != fld.Pkg() {
+							continue
+						}
+					}
+				}
+				an.Instrs(fn, func(in ssa.Instruction) {
+					if st, ok := in.(*ssa.Store); ok && an.SameField(an.FieldOfAddr(st.Addr), fld) {
+						vals = append(vals, st.Val)
+					}
+				})
+			}
+			if len(vals) != 1 || fld.Exported() {
+				return v
+			}
+			v = vals[0]
+		case *ssa.Parameter:
+			fn := x.Parent()
+			sites := an.CallSitesOf(c, fn)
+			if len(sites) != 1 || fn.Object() == nil || fn.Object().Exported() {
+				return v
+			}
+			idx := an.ParamIndex(x)
+			if idx < 0 || idx >= len(sites[0].Common().Args) {
+				return v
+			}
+			v = sites[0].Common().Args[idx]
+		default:
+			return v
+		}
+	}
+	return v
+}
